@@ -25,7 +25,7 @@ T = {
          "Theorems (Props/C03.v): view_deserialize never panics; an accepted input is spec_ser of a typed value and the tree represents it; every spec encoding is accepted. Correspondence: accept/reject/panic and re-serialization on exhaustive small strings (12 small types) and structure-aware corruptions; model also checked against the spec on every accepted input; inputs of 2^32 bytes and more are fed lazily and checked against the theorems' statement (accept => whole input consumed and reproduced) since the model cannot be run on them.",
          "machine-checked proof (Coq) + differential correspondence incl. exhaustive small inputs"),
  "C04": ("typed mutations behave like a plain value model",
-         "Theorems (Props/C04.v): the tree machine TM simulates the plain-value machine VM step by step (relation: every handle's backing represents its value), lifted to all finite histories; errors leave the state unchanged. Correspondence: exhaustive short histories on 8 small types and random long histories with retained/nested sub-views: Go vs HM vs TM vs VM after every step.",
+         "Theorems (Props/C04.v): the tree machine TM simulates the plain-value machine VM step by step (relation: every handle's backing represents its value), lifted to all finite histories; errors leave the state unchanged. Correspondence: exhaustive short histories on 8 small types and random long histories with retained/nested sub-views: Go vs HM vs TM vs VM after every step; structure-shared lists of 2^20..2^32+5 elements against the value machine's append/pop rule.",
          "machine-checked refinement proof (Coq) + differential correspondence on histories"),
  "C05": ("backing trees are persistent",
          "Theorems (Props/C05.v): on the heap machine every step only appends cells; h_merkle only fills unset memos; abstraction of every existing address is stable over all histories; copies are detached; the heap machine refines the pure tree machine of C04 step by step (C05_heap_machine_refines_tree_machine, C05_refined_history_root). Correspondence: snapshots (node pointer, raw root) taken before steps and re-derived from the raw node structure after every later step, incl. zero nodes.",
@@ -61,10 +61,10 @@ T = {
          "Theorems (Props/C15.v): fixed flag = spec for every type; min/max/size = spec under max < 2^64 (wrap-free); every typed value's encoding length lies within the bounds; both bounds are attained. Correspondence: the four accessors on ~3000 types vs model vs spec.",
          "machine-checked proof (Coq) + differential correspondence"),
  "C16": ("generalized-index and bit-length arithmetic is exact",
-         "Theorems (Props/C16.v, 27 statements): bit_index = log2, bit_length = size, cover_depth = log2_up on all 64-bit inputs; every Gindex64 method on 2^d+p; ToGindex64 accepts exactly d<64, i<2^d; minimal LE/BE/left-aligned encodings decode back. Correspondence: all v < 2^12 (2^17 thorough), 2^k(+-1), random per bit-length class, (index,depth) grid over all 256 depths.",
+         "Theorems (Props/C16.v, 27 statements): bit_index = log2, bit_length = size, cover_depth = log2_up on all 64-bit inputs; every Gindex64 method on 2^d+p; ToGindex64 accepts exactly d<64, i<2^d; minimal LE/BE/left-aligned encodings decode back. Correspondence: all v < 2^12 (2^17 thorough), 2^k(+-1), random per bit-length class, (index,depth) grid over all 256 depths; several iterators interleaved; every entry point again as the first call of a fresh process (harness/first).",
          "machine-checked proof (Coq) + differential correspondence"),
  "C17": ("iterators agree with indexed access",
-         "Theorems (Props/C17.v): the stack-machine node iterator yields bottom nodes 0..len-1 in order then End forever; packed and bit iterators likewise; ReadonlyIter, Iter and Get agree; with missing data an iterator errs, never returns a wrong component. Correspondence: both iterators (+3 calls) and Get on boundary lengths (31/32/33, 255/256/257, 511/512/513), large limits, random series, and malformed backings (a pair grafted where a chunk is expected, a summarised node, a length above the limit: exhaustive over a small corpus).",
+         "Theorems (Props/C17.v): the stack-machine node iterator yields bottom nodes 0..len-1 in order then End forever; packed and bit iterators likewise; ReadonlyIter, Iter and Get agree; with missing data an iterator errs, never returns a wrong component. Correspondence: both iterators (+3 calls) and Get on boundary lengths (31/32/33, 255/256/257, 511/512/513), large limits, random series, and malformed backings (a pair grafted where a chunk is expected, a summarised node, a length above the limit: exhaustive over a small corpus); several iterators interleaved; the same reads of one view object from six goroutines under the race detector.",
          "machine-checked proof (Coq) of the explicit state machines + differential correspondence"),
  "C18": ("packed-bitfield helpers agree with a bit-sequence model",
          "Theorems (Props/C18.v, 27 statements): BitlistCheck/BitvectorCheck accept exactly the spec-valid packings; length, get/set, ones-count, zero-test, covers expressed on the unpacked sequence; behaviour on invalid input stated. Correspondence: all strings <= 1 byte (2 thorough) x limits 0..40, 3-byte alphabet strings, random strings.",
